@@ -4,7 +4,7 @@
 # demo fails with the patch and passes without it. Prints a JSON summary line.
 set -u
 id=$1; v=$2; shift 2
-src=${SRC:-/tmp/seed/$id/_out/$v}
+src=${SRC:-/verif/seeded/$id-$v}
 wt=/tmp/confirm/$id-$v
 export GOFLAGS=-mod=mod GOPROXY=off GOSUMDB=off GOTOOLCHAIN=local
 rm -rf $wt; git -C /repo worktree prune; mkdir -p /tmp/confirm
